@@ -20,7 +20,7 @@ def check(rep):
     # a lexer kept between compilations stays in whatever state the previous text left it (e.g. inside a comment)
     ER.rule_fresh_per_parse(ctx, rid="C07.FRESH-LEXER-PER-PARSE", kinds=("Lexer",))
     GR.rule_conflicts(ctx)
-    GR.rule_precedence(ctx, rid="C07.PRECEDENCE-ASSOC")
+    GR.rule_precedence(ctx, rid="C07.PRECEDENCE-ASSOC", only_errors=True)
     GR.rule_grammar_agrees(ctx, rid="C07.GRAMMAR-ACCEPTS", directions=("ref<=ext",))
     # the evaluator compiles the nested-helper layout (the exposed one is C14's)
     PR.rule_compiles(ctx, layouts=(False,))
